@@ -291,6 +291,17 @@ def pipeline(args):
     try:
         indir = os.path.join(rundir, "in")
         truth, paths = build_inputs(args.get("spec"), args.get("opts"), indir)
+        pre = args.get("pre")
+        if pre:
+            # history of the output folder: an earlier run of another data set went into the same folder
+            predir = os.path.join(rundir, "pre")
+            truth0, paths0 = build_inputs(pre["spec"], pre.get("opts"), os.path.join(predir, "in"))
+            run_once(predir, truth0, paths0, pre.get("opts"), sched=args.get("sched"), bufsize=args.get("bufsize", 8192),
+                     logname="pre.log", outdir=os.path.join(rundir, "out"), home=os.path.join(rundir, "home"))
+        if args.get("rerun"):
+            # "repeated runs": the same command once more into the folder that already holds its results (--force)
+            run_once(rundir, truth, paths, args.get("opts"), sched=args.get("sched"), bufsize=args.get("bufsize", 8192),
+                     logname="first.log")
         r = run_once(rundir, truth, paths, args.get("opts"), sched=args.get("sched"), fault=args.get("fault"),
                      bufsize=args.get("bufsize", 8192))
         res = summarize(r, rundir, truth, want=args.get("want", ()), oracles=args.get("oracles", ()))
@@ -310,6 +321,22 @@ def crash_resume(args):
     try:
         indir = os.path.join(rundir, "in")
         truth, paths = build_inputs(args.get("spec"), args.get("opts"), indir)
+        pre = args.get("pre")
+
+        def pre_history(outdir_, home_):
+            # history of the output folder: an earlier run of ANOTHER data set went into the same folder (with --keep_tmp, or
+            # killed at a seeded point), then the run under test starts there with --force
+            predir = os.path.join(rundir, "pre")
+            first = not os.path.isdir(predir)
+            truth0, paths0 = build_inputs(pre["spec"], pre.get("opts"), os.path.join(predir, "in")) if first else pre_built[0]
+            pre_built[:] = [(truth0, paths0)]
+            r0_ = run_once(predir, truth0, paths0, pre.get("opts"), sched=args.get("sched"), fault=pre.get("fault"),
+                           bufsize=args.get("bufsize", 8192), logname="pre.log", outdir=outdir_, home=home_)
+            if r0_["harness_error"]:
+                raise RuntimeError("pre-history run: %s" % r0_["harness_error"])
+        pre_built = []
+        if pre:
+            pre_history(os.path.join(rundir, "out"), os.path.join(rundir, "home"))
         fault = dict(args["fault"])
         if "index" not in fault:
             # stage-relative fault {"stage": name | None, "frac": 0..1}: a fault-free probe run of the same job (same schedule)
@@ -317,6 +344,8 @@ def crash_resume(args):
             from .checks import c07 as _c07
             probe = os.path.join(rundir, "probe")
             before = set(os.listdir(indir))
+            if pre:
+                pre_history(os.path.join(probe, "out"), os.path.join(probe, "home"))
             r0 = run_once(rundir, truth, paths, args.get("opts"), sched=args.get("sched"), fault=None,
                           bufsize=args.get("bufsize", 8192), logname="probe.log", outdir=os.path.join(probe, "out"),
                           home=os.path.join(probe, "home"))
@@ -410,6 +439,25 @@ def _fresh_digest(gtf_path, complete, scratch):
     return _fresh_cache[key]
 
 
+def _edit_gtf(paths, si):
+    """content change of the annotation: drop its last transcript (keeps it valid); both representations, newer real mtime"""
+    import re
+    import gzip as _gz
+    with open(paths["gtf"]) as f:
+        lines = f.readlines()
+    tids = re.findall(r'transcript_id "([^"]+)"', "".join(lines))
+    victim = tids[-1] if tids else None
+    keep = [l for l in lines if victim is None or ('transcript_id "%s"' % victim) not in l]
+    with open(paths["gtf"], "w") as f:
+        f.writelines(keep)
+    with open(paths["gtf_gz"], "wb") as raw:
+        with _gz.GzipFile(fileobj=raw, mode="wb", mtime=0) as f:
+            f.write("".join(keep).encode())
+    st = os.stat(paths["gtf"])
+    for pth in (paths["gtf"], paths["gtf_gz"]):
+        os.utime(pth, (st.st_mtime + 2000.0 + si, st.st_mtime + 2000.0 + si))
+
+
 def cache_session(args):
     """args: workloads [{spec, gz}], steps [ {"run": [actor, ...]} | {"op": ..., ...} ], sched (for concurrent steps)
     actor: {"wl": j, "opts": {...}, "out": "A"}"""
@@ -459,26 +507,33 @@ def cache_session(args):
             if k == "getmtime" and p.endswith(".db") and p in w and w[p] != a.slot:
                 hub.probe("db_mtime_checked_while_peer_is_rebuilding_it")
 
+        during = {"todo": None, "commits": 0}
+        _inner_on_event = on_event
+
+        def on_event(hub, a, m, seq):          # noqa: F811 - wraps the probe hook above
+            _inner_on_event(hub, a, m, seq)
+            td = during["todo"]
+            if td is not None and m["k"] == "sqlite-commit" and m["p"].endswith(".db"):
+                during["commits"] += 1
+                if during["commits"] == td.get("nth_commit", 3):
+                    # the user replaces the annotation while a run is converting it
+                    apply_op(dict(td, op=td["op"]), 50 + during["commits"])
+                    during["todo"] = None
+                    hub.probe("annotation_changed_during_conversion")
+
+        def apply_op(step, si):
+            truth, paths, indir = wls[step.get("wl", 0)]
+            assert step["op"] == "edit_gtf"
+            _edit_gtf(paths, si)
+
         for si, step in enumerate(args["steps"]):
+            if "run" in step and step.get("during"):
+                during["todo"], during["commits"] = dict(step["during"]), 0
             if "op" in step:
                 op = step["op"]
                 truth, paths, indir = wls[step.get("wl", 0)]
                 if op == "edit_gtf":
-                    # content change: drop the last transcript of the annotation (keeps it valid)
-                    with open(paths["gtf"]) as f:
-                        lines = f.readlines()
-                    tids = re.findall(r'transcript_id "([^"]+)"', "".join(lines))
-                    victim = tids[-1] if tids else None
-                    keep = [l for l in lines if victim is None or ('transcript_id "%s"' % victim) not in l]
-                    with open(paths["gtf"], "w") as f:
-                        f.writelines(keep)
-                    import gzip as _gz
-                    with open(paths["gtf_gz"], "wb") as raw:
-                        with _gz.GzipFile(fileobj=raw, mode="wb", mtime=0) as f:
-                            f.write("".join(keep).encode())
-                    st = os.stat(paths["gtf"])
-                    for pth in (paths["gtf"], paths["gtf_gz"]):
-                        os.utime(pth, (st.st_mtime + 2000.0 + si, st.st_mtime + 2000.0 + si))
+                    _edit_gtf(paths, si)
                 elif op == "restore_old_gtf":
                     # the file is replaced by a different annotation that carries an OLDER mtime (cp -p, rsync -a, tar x)
                     with open(paths["gtf"]) as f:
@@ -549,7 +604,9 @@ def cache_session(args):
                 probes[k] = probes.get(k, 0) + v
             out["events"] += r["events"]
             sres = {"actors": [], "harness_error": r["harness_error"],
-                    "killed": [e for e in r["trace"] if e[0] == "kill_actor"]}
+                    "killed": [e for e in r["trace"] if e[0] == "kill_actor"],
+                    "during_fired": bool(step.get("during")) and during["todo"] is None}
+            during["todo"] = None       # an edit that did not fire during this run never fires later
             for ai, (a, truth, paths, outdir, o, prefixes) in enumerate(meta):
                 chroms = [c for c, _ in truth["chroms"]]
                 files, residue = outputs.collect(outdir, chroms)
@@ -564,6 +621,14 @@ def cache_session(args):
                 ar = {"out": a["out"], "exit": code, "digests": outputs.digests(files), "db_used": used[-1] if used else None}
                 if code != 0:
                     ar["failure_site"] = failure_site(log)
+                    # did this actor test the existence of a database in ANOTHER run's folder before it failed?
+                    own = None
+                    for dpath, dname in dirs:
+                        if dpath == outdir:
+                            own = dname
+                    ar["foreign_db_exists_checked"] = any(
+                        e[0] == "ev" and e[2] == ai and ":exists:" in e[3] and e[3].endswith(".db") and (own is None or own not in e[3])
+                        for e in r["trace"])
                     keep = [l for l in log.split("\n") if " - INFO - " not in l]
                     ar["log_tail"] = "\n".join(keep[-14:])[-1500:]
                 if used and os.path.exists(used[-1]) and o.get("gtf_repr") != "db" and o.get("annotated", True):
